@@ -64,6 +64,38 @@ def _infinite_wait(sc):
     return False
 
 
+def apply_mode(a, what):
+    """terminal modes an application may have in force around a read (a = tcgetattr list, changed in place):
+    True / "ce": no canonical mode, no echo;  "raw": what cfmakeraw-like code sets (lflag + iflag + VMIN/VTIME);
+    "lraw": the four local flags raw mode clears are already off, the input flags and everything else cooked;
+    "vtime": raw with VMIN 0 / VTIME 5;  "strip": cooked, with ISTRIP | INPCK on;
+    "cooked": canonical, echo, signals."""
+    if what is True or what == "ce":
+        a[3] &= ~(termios.ICANON | termios.ECHO)
+    elif what == "raw":
+        a[3] &= ~(termios.ICANON | termios.ECHO | termios.ISIG)
+        a[0] &= ~(termios.ICRNL | termios.IXON)
+        a[6][termios.VMIN] = 1
+        a[6][termios.VTIME] = 0
+    elif what == "lraw":
+        a[3] &= ~(termios.ICANON | termios.ECHO | termios.ISIG | termios.IEXTEN)
+        a[0] |= (termios.ICRNL | termios.IXON | termios.BRKINT)
+    elif what == "vtime":
+        a[3] &= ~(termios.ICANON | termios.ECHO | termios.ISIG | termios.IEXTEN)
+        a[0] &= ~(termios.ICRNL | termios.IXON | termios.BRKINT | termios.INPCK | termios.ISTRIP)
+        a[2] |= termios.CS8
+        a[6][termios.VMIN] = 0
+        a[6][termios.VTIME] = 5
+    elif what == "strip":
+        a[3] |= (termios.ICANON | termios.ECHO | termios.ISIG)
+        a[0] |= (termios.ISTRIP | termios.INPCK | termios.ICRNL)      # (a pty keeps 8-bit characters whatever is asked)
+    elif what == "cooked":
+        a[3] |= (termios.ICANON | termios.ECHO | termios.ISIG)
+        a[0] |= termios.ICRNL
+    else:
+        raise ValueError(what)
+
+
 class Session:
     def __init__(self, exe, spec, cols=80, rows=24, raw_initial=False, timeout=20.0):
         self.timeout = timeout
@@ -79,7 +111,7 @@ class Session:
         fcntl.ioctl(slave, termios.TIOCSWINSZ, struct.pack("HHHH", rows, cols, 0, 0))
         if raw_initial:
             a = termios.tcgetattr(slave)
-            a[3] &= ~(termios.ICANON | termios.ECHO)
+            apply_mode(a, raw_initial)
             termios.tcsetattr(slave, termios.TCSANOW, a)
         self.initial_termios = termios.tcgetattr(slave)
         pid = os.fork()
@@ -330,14 +362,7 @@ def run_case(exe, spec, chunks, cols=80, rows=24, raw_initial=False, probe=None,
         what = between_reads[k] if between_reads and k < len(between_reads) else "keep"
         if what != "keep":
             a = termios.tcgetattr(sess.slave)
-            if what == "raw":
-                a[3] &= ~(termios.ICANON | termios.ECHO | termios.ISIG)
-                a[0] &= ~(termios.ICRNL | termios.IXON)
-                a[6][termios.VMIN] = 1
-                a[6][termios.VTIME] = 0
-            else:
-                a[3] |= (termios.ICANON | termios.ECHO | termios.ISIG)
-                a[0] |= termios.ICRNL
+            apply_mode(a, what)
             termios.tcsetattr(sess.slave, termios.TCSANOW, a)
         stops.append({"found": before, "left": termios.tcgetattr(sess.slave), "out_mark": len(sess.out), "obs_mark": len(sess.obs)})
 
